@@ -12,7 +12,7 @@ import Verif.Model.SignNames
   san = `d|i|e|u` `:` x<raw> `:` x<canonical>;  ext = `<oid number>:x<value>` (oid 0 = provisioner OID)
   `src fn=signX509|jwk|x5c|oidc|nebula|k8ssa` prints the source-order tables of the model (compared with what
   harness/cmd/c03_src derives from the Go source).
-  Output: refuse:<status> | error | issue cn=… dns=… ip=… em=… uri=… key=<n> ext=… | parse-error
+  Output: unauth:<status> | refuse:<status> | error | issue cn=… dns=… ip=… em=… uri=… key=<n> ext=… | parse-error
 -/
 open Verif Verif.SignNames
 
@@ -106,7 +106,8 @@ def eval (line : String) : Option String := do
   let hasUd ← bool? (← get "ud")
   let ud : UserData := { exts := (← list? ext? (← get "uext")), other := (← (← get "uoth").toNat?) }
   let enc : Enc := ⟨(← bool? (← get "enct")), (← bool? (← get "encc"))⟩
-  match sign cfg tok csr (if hasUd then some ud else none) enc with
+  match request cfg tok csr (if hasUd then some ud else none) enc with
+  | .unauthorized st => pure s!"unauth:{st}"
   | .refused st => pure s!"refuse:{st}"
   | .error => pure "error"
   | .issued c => pure (certS c)
